@@ -235,7 +235,12 @@ def _joined(fn, js, depth, seen) -> List[Role]:
 def _follow_target(fn, tgt, stmt, depth, seen, element=False) -> List[Role]:
     out: List[Role] = []
     if isinstance(tgt, ast.Name):
-        uses = _uses_of(fn, tgt.id, stmt)
+        if isinstance(stmt, ast.comprehension):
+            # the variable of a comprehension lives inside the comprehension expression only
+            comp = parent(stmt)
+            uses = [n for n in ast.walk(comp) if isinstance(n, ast.Name) and n.id == tgt.id and isinstance(n.ctx, ast.Load)]
+        else:
+            uses = _uses_of(fn, tgt.id, stmt)
         if not uses:
             return []
         for u in uses:
